@@ -135,3 +135,87 @@ def feq(a, b, rel=1e-9):
     return abs(a - b) <= rel * max(abs(a), abs(b), 1e-300)
   except Exception:
     return False
+
+
+# ---------------------------------------------------------------------------
+# Consistent-hash ring: independent implementation of the published
+# carbon_ch / fnv1a_ch algorithm (the one graphite-web and carbon-c-relay
+# implement): 100 replicas per node, replica key "('server', 'instance'):i"
+# hashed with md5[:4] (carbon_ch) or "i-instance" hashed with folded 32-bit
+# FNV-1a (fnv1a_ch), +1 bump while the position is taken, clockwise walk.
+# ---------------------------------------------------------------------------
+import hashlib as _hashlib
+import bisect as _bisect
+
+
+def ref_fnv1a_fold(data):
+  h = 0x811c9dc5
+  for b in data:
+    h ^= b
+    h = (h * 0x01000193) & 0xffffffff
+  return (h >> 16) ^ (h & 0xffff)
+
+
+def ref_position(key, hash_type):
+  if hash_type == 'fnv1a_ch':
+    return ref_fnv1a_fold(key.encode('utf-8'))
+  return int(_hashlib.md5(key.encode('utf-8')).hexdigest()[:4], 16)
+
+
+class RefRing(object):
+  REPLICAS = 100
+
+  def __init__(self, hash_type='carbon_ch', nodes=()):
+    self.hash_type = hash_type or 'carbon_ch'
+    self.entries = []        # sorted [(position, node, raw position)]
+    self.nodes = []
+    for n in nodes:
+      self.add(n)
+
+  def replica_key(self, node, i):
+    if self.hash_type == 'fnv1a_ch':
+      return '%d-%s' % (i, node[1])
+    return "('%s', %s):%d" % (node[0], "'%s'" % node[1] if node[1] is not None else 'None', i)
+
+  def add(self, node):
+    if node not in self.nodes:
+      self.nodes.append(node)
+    taken = set(e[0] for e in self.entries)
+    for i in range(self.REPLICAS):
+      raw = ref_position(self.replica_key(node, i), self.hash_type)
+      pos = raw
+      while pos in taken:
+        pos += 1
+      taken.add(pos)
+      _bisect.insort(self.entries, (pos, node, raw))
+
+  def remove(self, node):
+    self.nodes = [n for n in self.nodes if n != node]
+    self.entries = [e for e in self.entries if e[1] != node]
+
+  def walk(self, position):
+    """Preference order of nodes for a key hashing to `position` (the published
+    loop: start at the first entry >= position, stop one entry short of a full
+    turn or when every node has been seen)."""
+    out = []
+    n = len(self.entries)
+    if not n:
+      return out
+    if len(self.nodes) == 1:
+      return [self.nodes[0]]
+    idx = _bisect.bisect_left(self.entries, (position,)) % n
+    last = (idx - 1) % n
+    seen = set()
+    while len(seen) < len(self.nodes) and idx != last:
+      node = self.entries[idx][1]
+      if node not in seen:
+        seen.add(node)
+        out.append(node)
+      idx = (idx + 1) % n
+    return out
+
+  def clusters(self):
+    """Intervals [raw, final] of every entry that was bumped off its hash position:
+    any lookup landing inside one can be answered differently by a ring that
+    inserted the colliding replicas in another order."""
+    return [(e[2], e[0]) for e in self.entries if e[0] != e[2]]
